@@ -291,9 +291,9 @@ Section Fmt.
     (* format_lambda (271-304) *)
     Definition lambda_doc (args : list lamarg) (body : expr) (i : nat) : doc :=
       let args_part := lambda_args_part args +++ " =>" in
-      if is_do body then [Code args_part; Code " "] ++ rec body i
+      if is_do body then [Code (args_part +++ " ")] ++ rec body i
       else
-        let single := [Code args_part; Code " "] ++ rec body i in
+        let single := [Code (args_part +++ " ")] ++ rec body i in
         let s := render single in
         if negb (contains_nl s) && (i + String.length s <=? w)%nat then single
         else [Code args_part; Nl; ind (i + INDENT_SIZE)] ++ rec body (i + INDENT_SIZE).
@@ -354,14 +354,14 @@ Section Fmt.
             (* Rust re-assembles the right operand from `lines()`; when that is the identity
                (no "\r\n", no trailing "\n") the result is the document itself, otherwise the
                re-assembled text is kept as one opaque piece *)
-            left ++ [Code " "; Code op_str; Code " "] ++
+            left ++ [Code (" " +++ op_str +++ " ")] ++
             (if String.eqb (relined rs) rs then right else [Opaque r (relined rs)])
-          else left ++ [Code " "; Code op_str; Code " "] ++ right
+          else left ++ [Code (" " +++ op_str +++ " ")] ++ right
         else
-          left ++ [Nl; ind i; Code op_str; Code " "] ++ wrap_parens rp (rec r i)
+          left ++ [Nl; ind i; Code (op_str +++ " ")] ++ wrap_parens rp (rec r i)
       else
         let right_indent := i + INDENT_SIZE in
-        left ++ [Nl; ind right_indent; Code op_str; Code " "] ++
+        left ++ [Nl; ind right_indent; Code (op_str +++ " ")] ++
         wrap_parens rp (rec r right_indent).
 
     (* format_do_block_multiline (521-565) *)
@@ -413,6 +413,61 @@ End Fmt.
 (* format_expr (formatter.rs:9-12) *)
 Definition format_expr_doc e2s np rk (e : expr) (max_columns : option nat) : doc :=
   fmtd e2s np rk (match max_columns with Some n => n | None => DEFAULT_MAX_COLUMNS end) e 0.
+
+(* ------------------------------------------------------------------ comments of a text
+   The lexer-level scan that defines "the comment sequence of a text" (property C09's
+   observation): outside string literals (quote ... same quote, no escapes, may span lines) a
+   comment runs from "//" up to but excluding "\n" or "\r\n".  Written as a character automaton
+   without look-ahead; the harness (Rust) and the checks (Python) carry the same scanner. *)
+Inductive sst :=
+| SCode                      (* in code *)
+| SSlash                     (* in code, just after one "/" *)
+| SStr (q : ascii)           (* inside a string literal opened by q *)
+| SCom (cur : string)        (* inside a comment, text so far *)
+| SComCR (cur : string).     (* inside a comment, a "\r" is pending *)
+
+Definition is_quote (c : ascii) : bool := Ascii.eqb c """" || Ascii.eqb c "'".
+Definition snoc (s : string) (c : ascii) : string := s +++ String c "".
+
+Definition sstep (st : sst) (c : ascii) : list string * sst :=
+  match st with
+  | SCode => if is_quote c then ([], SStr c) else if Ascii.eqb c "/" then ([], SSlash) else ([], SCode)
+  | SSlash => if Ascii.eqb c "/" then ([], SCom "//") else if is_quote c then ([], SStr c) else ([], SCode)
+  | SStr q => if Ascii.eqb c q then ([], SCode) else ([], SStr q)
+  | SCom cur => if Ascii.eqb c NLc then ([cur], SCode)
+                else if Ascii.eqb c CRc then ([], SComCR cur) else ([], SCom (snoc cur c))
+  | SComCR cur => if Ascii.eqb c NLc then ([cur], SCode)
+                  else if Ascii.eqb c CRc then ([], SComCR (snoc cur CRc))
+                  else ([], SCom (snoc (snoc cur CRc) c))
+  end.
+Fixpoint srun (st : sst) (s : string) : list string * sst :=
+  match s with
+  | "" => ([], st)
+  | String c r => let (o, st') := sstep st c in let (o', st'') := srun st' r in (o ++ o', st'')
+  end.
+Definition sflush (st : sst) : list string :=
+  match st with SCom cur => [cur] | SComCR cur => [snoc cur CRc] | _ => [] end.
+Definition scan_from (st : sst) (s : string) : list string :=
+  let (o, st') := srun st s in o ++ sflush st'.
+Definition scan_comments (s : string) : list string := scan_from SCode s.
+
+(* a piece of code text is lexically self-contained: scanned from code state it emits no
+   comment and ends in code state (quotes balanced, no "//" outside them, no dangling "/") *)
+Definition neutral (s : string) : Prop := srun SCode s = ([], SCode).
+(* c is the text of one comment: "//" followed by neither "\n" nor "\r" *)
+Definition is_comment_text (c : string) : Prop := srun SCode c = ([], SCom c).
+
+(* a document whose code pieces are self-contained, whose comments are comment texts, and in
+   which every comment is followed by a line break or ends the document *)
+Fixpoint wf_doc (d : doc) : Prop :=
+  match d with
+  | [] => True
+  | Code s :: r => neutral s /\ wf_doc r
+  | Opaque _ s :: r => neutral s /\ wf_doc r
+  | Nl :: r => wf_doc r
+  | Comment c :: r =>
+      is_comment_text c /\ match r with [] => True | Nl :: _ => wf_doc r | _ => False end
+  end.
 
 (* ------------------------------------------------------------------ statements and drivers *)
 Inductive stmt_kind := SExpr (e : expr) | SOut (e : expr) | SComment (c : string).
